@@ -11,7 +11,7 @@
    properties of the judge itself. *)
 From Coq Require Import List NArith Arith Bool.
 From RT Require Import Model.Result Model.Bytes Model.Records Model.RecCodec Model.Block Model.Writer Model.SpecDecoder Model.Crc32
-  Proofs.BlockProofs Proofs.TableProofs Proofs.SpecProofs Proofs.SpecWriterProofs.
+  Proofs.BlockProofs Proofs.TableProofs Proofs.SpecProofs Proofs.SpecWriterProofs Proofs.SpecPaddedProofs.
 Import ListNotations.
 Local Open Scope N_scope.
 
@@ -46,6 +46,27 @@ Theorem C14_wellformed_noobj : forall deflate inflate,
     sp_refs t = refs /\ sp_logs t = logs' /\ sp_min t = min /\ sp_max t = max /\ sp_sha256 t = c_sha256 cfg.
 Proof. exact table_wellformed_noobj. Qed.
 Print Assumptions C14_wellformed_noobj.
+
+(* the layout rule of padded tables (padding is a writer option the file does not record, so
+   this is a separate judgement, spec_aligned): with padding on, every block in front of the
+   log section starts on a multiple of the block size; only the block in front of the log
+   section or of the footer may be left unpadded *)
+Theorem C14_padded : forall deflate inflate,
+  zlib_ok deflate inflate ->
+  forall cfg min max refs logs data,
+  c_unaligned cfg = false ->
+  cfg_ok cfg -> max < two64 -> min <= max -> refs_ok cfg min max refs -> logs_ok cfg logs ->
+  N.of_nat (length data) < two64 ->
+  write_table deflate cfg min max refs logs = Ok (false, data) ->
+  spec_aligned (sinfl_of inflate) data = inr true.
+Proof. exact table_padded_two64. Qed.
+Print Assumptions C14_padded.
+
+(* the judgement is not constantly true: an unpadded table with several ref blocks fails it *)
+Example C14_padded_ex :
+  a_check (t_cfg false 128 false) 30 30 = Some (inr true) /\
+  a_check (t_cfg true 128 false) 30 30 = Some (inr false).
+Proof. split; vm_compute; reflexivity. Qed.
 
 (* non-vacuity: with the concrete stored-stream codec (which satisfies zlib_ok) a 38-block
    aligned table with multi-level ref index, object index and log index is written,
